@@ -28,7 +28,14 @@ RULE = ("operations get_rc / get_unreachable_nodes / prune_its_to_rc / ITS(g).pr
         "paths are exercised), ITS graphs built like the library does (ids = map numbers from 1, idx_map/aam attributes), "
         "plain graphs (paths, stars, rings, random forests, isolated nodes) with single/multiple/isolated/duplicated/"
         "absent start nodes; all id schemes of gens.reid (contiguous/offset/sparse/negative/shuffled insertion order); "
-        "radius 0..diameter+1; insert_hydrogens both. thorough additionally enumerates get_unreachable_nodes "
+        "radius 0..diameter+1; insert_hydrogens both. Family 'big' (quick: 40 cases, thorough: ~910) for "
+        "get_unreachable_nodes / prune_its_to_rc / ITS.prune: ladders, linearly fused six-rings, grids, hexagonal patches, "
+        "a 28-atom steroid skeleton and variations, branched skeletons with ring closures (12-30 atoms, max degree 3-4), "
+        "radius diameter-2..diameter+1, single and multiple start nodes, walk counts 10^3..10^12; three cases in four "
+        "SEARCH a (start set / reaction-centre bond, radius) such that some reachable column has every selected D_sum entry a "
+        "positive multiple of 256 (a pendant reaction-centre bond is added when no bond of the graph qualifies); layered "
+        "complete-bipartite blocks are CONSTRUCTED so that a D_sum entry is exactly 2^8, 2^16, 2^32 (or 27*2^8), so that "
+        "any narrower integer type (uint8/int16/int32) holds 0 where the exact count is positive. thorough additionally enumerates get_unreachable_nodes "
         "EXHAUSTIVELY on every graph up to isomorphism with <= 6 nodes (graph atlas, 208 graphs, re-labelled with a "
         "random id scheme) and every labelled graph on <= 4 nodes, x every non-empty start set x radius 0..4. "
         "non-trivial = the result is neither empty nor everything (unreachable list / pruned graph strictly between), or "
@@ -36,8 +43,9 @@ RULE = ("operations get_rc / get_unreachable_nodes / prune_its_to_rc / ITS(g).pr
 TRUSTED = ["model of the attribute dict as a record of the five keys FGUtils uses",
            "numpy matrix arithmetic modelled over mathematical integers (Z)",
            "Base.NX model of networkx.Graph copy/add_node/add_edge/remove_node iteration orders (tied separately by nxtie)"]
-ASSUMPTIONS = ["walk counts < 2^63: numpy's int64 wrap-around is not modelled; generated inputs keep "
-               "maxdeg^radius * |start| far below 2^62",
+ASSUMPTIONS = ["walk counts < 2^63: numpy's int64 wrap-around is not modelled; every generated input satisfies "
+               "max(|start|,|nodes|) * (radius+1) * maxdeg^radius < 2^62 (int64_safe), which bounds every entry of D, D_sum "
+               "and every column sum; within that bound counts up to ~2.7e18 are exercised (family 'big')",
                "node ids are Python ints, radius is a non-negative int, the graph is a simple undirected nx.Graph "
                "whose edges all carry a 'bond' attribute (number, 2-tuple or 2-list)",
                "no self-loops are generated (the model nevertheless puts 1 on the diagonal exactly like networkx)"]
@@ -211,6 +219,253 @@ def exhaustive_unreach():
                                "scheme": "contig", "kind": "labelled%d" % n, "defaults": False}
 
 
+# ----------------------------------------------------------------------------- large walk counts
+# Family "big": fused rings / ladders / grids / hexagonal patches / a steroid skeleton / branched
+# graphs with 12-30 atoms and maximum degree 3-4, radius diameter-2 .. diameter+1, so that the
+# entries of D_sum reach 10^3 .. 10^12.  The model counts in Z; an implementation that narrows the
+# matrix type (uint8, int16, int32 ...) wraps and reports reachable nodes - even start nodes.  Where
+# possible the (start set, radius) is SEARCHED such that some reachable column has every selected
+# entry of D_sum an exact multiple of 256 (so a uint8 matrix would hold 0 there); layered complete-
+# bipartite blocks are CONSTRUCTED so that an entry is exactly 2^8, 2^16 or 2^32.
+
+def _plain(h, rng):
+    g = nx.Graph()
+    m = {n: i for i, n in enumerate(h.nodes)}
+    for n in h.nodes:
+        g.add_node(m[n], symbol=rng.choice(gens.HEAVY))
+    for u, v in h.edges:
+        g.add_edge(m[u], m[v], bond=rng.choice(ORDERS))
+    return g
+
+
+def steroid():
+    """cholesterol skeleton: gonane core (rings 6-6-6-5), two angular methyls, C8 side chain, 3-OH: 28 atoms"""
+    e = [(1, 2), (2, 3), (3, 4), (4, 5), (5, 10), (10, 1), (5, 6), (6, 7), (7, 8), (8, 9), (9, 10),
+         (9, 11), (11, 12), (12, 13), (13, 14), (14, 8), (14, 15), (15, 16), (16, 17), (17, 13),
+         (10, 19), (13, 18), (17, 20), (20, 21), (20, 22), (22, 23), (23, 24), (24, 25), (25, 26), (25, 27), (3, 28)]
+    h = nx.Graph()
+    h.add_nodes_from(range(1, 29))
+    h.add_edges_from(e)
+    return h
+
+
+def acene(k):
+    """k linearly fused six-rings (naphthalene k=2, anthracene k=3 ...): 4k+2 atoms, degree <= 3"""
+    h = nx.Graph()
+    top = list(range(0, 2 * k + 1))
+    bot = list(range(2 * k + 1, 4 * k + 2))
+    nx.add_path(h, top)
+    nx.add_path(h, bot)
+    for i in range(0, 2 * k + 1, 2):
+        h.add_edge(top[i], bot[i])
+    return h
+
+
+def branched(rng, n, maxdeg):
+    h = nx.Graph()
+    h.add_node(0)
+    for i in range(1, n):
+        cands = [x for x in h.nodes if h.degree(x) < maxdeg]
+        # prefer recent nodes: long branched skeletons rather than stars
+        u = rng.choice(cands[-6:]) if rng.random() < 0.7 else rng.choice(cands)
+        h.add_edge(u, i)
+    for _ in range(rng.randint(0, 3)):
+        u, v = rng.sample(list(h.nodes), 2)
+        if (h.degree(u) < maxdeg and h.degree(v) < maxdeg and not h.has_edge(u, v)
+                and nx.shortest_path_length(h, u, v) >= 3):
+            h.add_edge(u, v)
+    return h
+
+
+def big_shape(rng):
+    kind = rng.choice(["ladder", "acene", "grid", "hexlat", "steroid", "steroid", "branched", "branched"])
+    if kind == "ladder":
+        h = nx.ladder_graph(rng.randint(6, 15))
+    elif kind == "acene":
+        h = acene(rng.randint(3, 7))
+    elif kind == "grid":
+        a, b = rng.choice([(3, 4), (3, 5), (4, 4), (3, 6), (4, 5), (4, 6), (5, 5), (3, 8), (5, 6), (2, 12)])
+        h = nx.grid_2d_graph(a, b)
+    elif kind == "hexlat":
+        a, b = rng.choice([(1, 3), (2, 2), (1, 5), (2, 3), (3, 2), (2, 4), (3, 3)])
+        h = nx.hexagonal_lattice_graph(a, b)
+    elif kind == "steroid":
+        h = steroid()
+        for _ in range(rng.randint(0, 2)):          # small variations of the skeleton
+            leaves = [x for x in h.nodes if h.degree(x) == 1]
+            if rng.random() < 0.5 and leaves:
+                h.remove_node(rng.choice(leaves))
+            else:
+                cands = [x for x in h.nodes if h.degree(x) < 3]
+                h.add_edge(rng.choice(cands), max(h.nodes) + 1)
+    else:
+        h = branched(rng, rng.randint(14, 30), rng.choice([3, 4]))
+    return _plain(h, rng), kind
+
+
+def layered(rng, widths):
+    """source - complete bipartite blocks between consecutive layers - sink: the number of shortest
+    walks source -> sink (and, the graph being bipartite, the D_sum entry at radius = distance and
+    distance + 1) is exactly the product of the widths"""
+    h = nx.Graph()
+    layers, nxt = [[0]], 1
+    for w in list(widths) + [1]:
+        layers.append(list(range(nxt, nxt + w)))
+        nxt += w
+    h.add_nodes_from(range(nxt))
+    for a, b in zip(layers, layers[1:]):
+        for u in a:
+            for v in b:
+                h.add_edge(u, v)
+    return _plain(h, rng), 0, nxt - 1, len(layers) - 1
+
+
+def exact_dsums(g, order, rmax):
+    """[D_sum for radius 0..rmax] over exact integers (int64 is exact here: see int64_safe)"""
+    import numpy as np
+    A = nx.to_numpy_array(g, nodelist=order, weight=None, dtype=np.int64)
+    D = np.identity(len(order), dtype=np.int64)
+    S = D.copy()
+    res = [S.copy()]
+    for _ in range(rmax):
+        D = D @ A
+        S = S + D
+        res.append(S.copy())
+    return res
+
+
+def _fits(g, rows, r):
+    maxdeg = max([d for _, d in g.degree()] + [1])
+    return max(rows, g.number_of_nodes(), 1) * (r + 1) * maxdeg ** r < 2 ** 62
+
+
+def find_wrap(rng, g, op, mod=256, only_edge=None):
+    """(start list, radius, witness column) such that every selected D_sum entry of the witness column
+    is a multiple of mod and at least one is positive; None if there is none for r in diam-2..diam+1"""
+    pendant_tried = only_edge is not None
+    order = list(g.nodes)
+    idx = {n: i for i, n in enumerate(order)}
+    d = diameter_bound(g)
+    radii = [r for r in range(max(1, d - 2), d + 2) if _fits(g, len(order), r)]
+    if not radii:
+        return None
+    sums = exact_dsums(g, order, max(radii))
+    cands = []
+    for r in radii:
+        M = sums[r]
+        zero = (M % mod == 0)
+        pos = (M > 0)
+        if op == "unreach":
+            for j in range(len(order)):
+                col0 = [i for i in range(len(order)) if zero[i][j]]
+                colp = [i for i in col0 if pos[i][j]]
+                for i in colp:
+                    cands.append((r, [i], j))
+                    others = [x for x in col0 if x != i]
+                    if others:
+                        cands.append((r, [i] + rng.sample(others, min(len(others), rng.randint(1, 2))), j))
+        else:
+            for u, w in ([only_edge] if only_edge else g.edges):
+                i, k = idx[u], idx[w]
+                both = zero[i] & zero[k] & (pos[i] | pos[k])
+                for j in range(len(order)):
+                    if both[j]:
+                        cands.append((r, [i, k], j))
+    if not cands and op != "unreach" and not pendant_tried:
+        # no bond of the graph works as reaction centre: try a pendant bond at each atom in turn
+        ws = [w for w in order if g.degree(w) < 4]
+        rng.shuffle(ws)
+        for w in ws:
+            g2 = g.copy()
+            p = max(order) + 1
+            g2.add_node(p, symbol="Cl")
+            g2.add_edge(p, w, bond=1)
+            hit = find_wrap(rng, g2, op, mod, only_edge=(p, w))
+            if hit:
+                return hit
+        return None
+    if not cands:
+        return None
+    r, st, j = rng.choice(cands)
+    return g, [order[i] for i in st], r, order[j]
+
+
+def big_case(rng, op, want_wrap=True):
+    g, kind = big_shape(rng)
+    d = diameter_bound(g)
+    found = find_wrap(rng, g, op) if want_wrap else None
+    wrap = 0
+    if found:
+        g, start, r, _ = found
+        wrap = 256
+    else:
+        r = rng.randint(max(0, d - 2), d + 1)
+        while r > 0 and not _fits(g, g.number_of_nodes(), r):
+            r -= 1
+        ns = list(g.nodes)
+        if op == "unreach":
+            start = rng.sample(ns, rng.choice([1, 1, 2, 3]))
+        else:
+            start = list(rng.choice(list(g.edges)))
+    return finish_big(rng, g, op, start, r, "big-" + kind, wrap)
+
+
+def finish_big(rng, g, op, start, r, kind, wrap):
+    if op != "unreach":
+        to_its_labels(rng, g, n_rc=0, list_p=0.0)
+        u, w = start
+        a = rng.choice([0, 1, 2])
+        g[u][w]["bond"] = (a, a + 1)
+        if not wrap and rng.random() < 0.4:         # a second reaction-centre bond elsewhere
+            x, y = rng.choice(list(g.edges))
+            g[x][y]["bond"] = (1, 2)
+    g, scheme, m = gens.reid(rng, g)
+    start = [m[s] for s in start] if op == "unreach" else []
+    return {"op": op, "graph": g, "start": start, "radius": r, "ih": rng.random() < 0.6,
+            "scheme": scheme, "kind": kind, "defaults": False, "wrap": wrap}
+
+
+def layered_case(rng, op, widths, at_plus_one=False):
+    g, src, snk, dist = layered(rng, widths)
+    prod = 1
+    for w in widths:
+        prod *= w
+    wrap = 2 ** 32 if prod % 2 ** 32 == 0 else 2 ** 16 if prod % 2 ** 16 == 0 else 256 if prod % 256 == 0 else 0
+    if op == "unreach":
+        r = dist + (1 if at_plus_one else 0)
+        return finish_big(rng, g, op, [src], r, "big-layered", wrap)
+    # the reaction-centre bond is a pendant bond at the source: start = {pendant, source}; the pendant
+    # atom reaches the sink only with dist+1 steps, and (bipartite) then still with a multiple of the product
+    p = g.number_of_nodes()
+    g.add_node(p, symbol="Cl")
+    g.add_edge(p, src, bond=1)
+    return finish_big(rng, g, op, [p, src], dist, "big-layered", wrap)
+
+
+W8, W16, W32 = [2] * 8, [4] * 8, [4] * 16
+
+
+def big_cases(seed, tier):
+    n = 33 if tier == "quick" else 900
+    k = 0
+    ops = ["unreach", "prune", "its_prune"]
+    # constructed: exact powers of two
+    plan = [("unreach", W8, False), ("prune", W8, False), ("its_prune", [4, 4, 2, 2, 2, 2], False),
+            ("unreach", W16, False), ("prune", [2] * 16, False), ("unreach", W32, False), ("prune", W32, False)]
+    if tier != "quick":
+        plan += [("unreach", W8, True), ("unreach", [2] * 16, True), ("its_prune", W16, False),
+                 ("its_prune", W32, False),
+                 ("unreach", [3, 2, 2, 3, 2, 2, 2, 2, 2, 2, 3], False), ("prune", [2, 4, 2, 4, 2, 4, 2, 4, 2, 4, 2], False)]
+    for op, widths, plus in plan:
+        rng = lib.rng_for(seed, ID + "layered", k)
+        k += 1
+        yield layered_case(rng, op, widths, plus)
+    for i in range(n):
+        rng = lib.rng_for(seed, ID + "big", i)
+        op = ops[i % 3]
+        yield big_case(rng, op, want_wrap=(i % 4 != 3))
+
+
 def int64_safe(c):
     """ASSUMPTION 'walk counts < 2^63': every entry of D_sum is <= (r+1) * maxdeg^r and a column
     sum adds at most max(|start|, |nodes|) of them; inputs are kept far below the int64 range."""
@@ -223,6 +478,10 @@ def int64_safe(c):
 
 def generate(seed, tier, ncases=None):
     n = ncases or (600 if tier == "quick" else 20000)
+    if ncases is None:
+        for c in big_cases(seed, tier):
+            if int64_safe(c):
+                yield c
     if tier == "thorough" and ncases is None:
         for c in exhaustive_unreach():
             yield c
@@ -350,13 +609,13 @@ def coq_case(c, out):
 def describe(c):
     return {"op": c["op"], "start": list(c["start"]), "radius": c["radius"], "ih": c["ih"],
             "defaults": bool(c.get("defaults")), "scheme": c["scheme"], "kind": c["kind"],
-            "graph": ct.graph_py(c["graph"])}
+            "wrap": c.get("wrap", 0), "graph": ct.graph_py(c["graph"])}
 
 
 def from_json(d):
     return {"op": d["op"], "start": list(d["start"]), "radius": d["radius"], "ih": d["ih"],
             "defaults": d.get("defaults", False), "scheme": d["scheme"], "kind": d["kind"],
-            "graph": ct.graph_from_py(d["graph"])}
+            "wrap": d.get("wrap", 0), "graph": ct.graph_from_py(d["graph"])}
 
 
 def describe_out(out):
@@ -388,8 +647,13 @@ def classes(c, out):
     yield "scheme=" + c["scheme"]
     yield "result=" + out[0]
     yield "kind=" + c["kind"].split("/")[0]
+    if c["kind"].startswith("big"):
+        yield "big:op=" + c["op"]
+        yield "big:some D_sum entry is a positive multiple of " + (str(c.get("wrap")) if c.get("wrap") else "nothing searched/found")
+        n = c["graph"].number_of_nodes()
+        yield "big:nodes=" + ("<=20" if n <= 20 else "21-30" if n <= 30 else ">30")
     r, ih = params(c)
-    yield "radius=" + (str(r) if r < 4 else "4+")
+    yield "radius=" + (str(r) if r < 4 else "4-7" if r < 8 else "8-12" if r < 13 else "13+")
     if c["op"] == "unreach":
         yield "starts=" + ("0" if not c["start"] else "1" if len(c["start"]) == 1 else "many")
         if out[0] == "ok":
